@@ -55,7 +55,9 @@ def main():
     @settings(deadline=None, database=None, suppress_health_check=list(HealthCheck), max_examples=1)
     @given(stream.strategy())
     def t(case):
-        r = stream.check(case)
+        from .runner import guarded, PROP_ID
+        PROP_ID[0] = mod.ID
+        r = guarded(stream.check, case)
         state['executions'] += 1
         if r.nontrivial:
             state['nontrivial'] += 1
